@@ -124,7 +124,7 @@ func runC03(c *Ctx) {
 			c.Check(known && isNil, "R1.keybound", "AddCertsToAgent|add only after a successful cast", w.Pos(cv.Pos()), "must-fact cast err == nil", "an identity can be added although the cast failed")
 			// the only skip in the loop is the failed cast: facts at the Add beyond the loop condition concern the cast only
 			extra := ""
-			for l := range f.At(cv.Block()) {
+			for l := range f.Primary(cv.Block()) {
 				ex := w.Short(l.V)
 				if strings.Contains(ex, "CastSSHPublicKeyToCertificate") || strings.Contains(ex, ".Certificate") {
 					continue
